@@ -30,12 +30,12 @@ class C01(Check):
         "data nesting depth <= 30 (recursive-descent codec; Python recursion limit is an input-size precondition)",
         "float leaves lie within IEEE single range; ints under float/double within +-2^63",
     ]
-    required_labels = ["s:union", "s:ref", "s:recursive", "d:varint10", "d:coll>=64", "d:nan", "form:parsed", "form:raw", "multi-value", "omitted-default"]
+    required_labels = ["s:union", "s:ref", "s:recursive", "d:varint10", "d:coll>=64", "d:nan", "form:parsed", "form:raw", "multi-value", "omitted-default", "d:tuple", "d:-type-hint", "d:nonlist-seq", "d:multibyte"]
     quick = (5000, 1)
     thorough = (12000, 16)
 
     def __init__(self):
-        self.feat = gen.Features()
+        self.feat = gen.Features(hints=0.1, dict_null=True)
 
     def selftest(self):
         B.selftest()
